@@ -728,3 +728,109 @@ func identOf(e ast.Expr) *ast.Ident {
 	}
 	return &ast.Ident{}
 }
+
+func init() {
+	register(&Rule{ID: "R06.8", Props: []string{"C06"}, Floor: 4, Title: "cluster-wide status of one CID: unallocated members are reported remote, unreachable allocated peers cluster_error under their own id, a CID outside the pinset unpinned", Run: r068})
+}
+
+func r068(c *Ctx, r *R) {
+	f := c.fn(r, "", "Cluster.globalPinInfoCid")
+	if f == nil {
+		return
+	}
+	remoteK, unpinK, cerrK := c.constNamed("api", "TrackerStatusRemote"), c.constNamed("api", "TrackerStatusUnpinned"), c.constNamed("api", "TrackerStatusClusterError")
+	sawRemote, sawUnpinned := false, false
+	for _, ci := range findCalls(f, false, ModPath+".setTrackerStatus") {
+		a := ci.Common().Args
+		switch {
+		case isConst(a[3], remoteK):
+			sawRemote = true
+			ok := false
+			for _, l := range phiLeaves(a[2]) {
+				if call, _ := originCall(l); call != nil && nameMatches(callName(call.Common()), ModPath+".peersSubtract") {
+					// members minus the allocated peers
+					fl, _ := fieldLoad(call.Common().Args[1])
+					if fl != nil && fl.Name() == "Allocations" {
+						ok = true
+					}
+					for _, l2 := range phiLeaves(call.Common().Args[1]) {
+						if fl2, _ := fieldLoad(l2); fl2 != nil && fl2.Name() == "Allocations" {
+							ok = true
+						}
+					}
+				}
+			}
+			r.Check(ok, "global:remote-set", ci.Pos(), "members that are not allocated the pin are reported remote", "the set reported as 'remote' is not members minus the pin's allocations")
+		case isConst(a[3], unpinK):
+			sawUnpinned = true
+			ok := guardedBy(ci.Block(), func(g Guard) bool {
+				b, isB := g.Cond.(*ssa.BinOp)
+				return isB && (b.Op == token.EQL) == g.Branch && (isGlobalLoad(b.Y, "ErrNotFound") || isGlobalLoad(b.X, "ErrNotFound"))
+			})
+			r.Check(ok, "global:unpinned-when-absent", ci.Pos(), "every member is reported unpinned exactly when the CID is not in the pinset", "members are reported 'unpinned' on a path other than 'not found in the pinset'")
+		default:
+			r.Bad("global:other-status", ci.Pos(), "globalPinInfoCid assigns an unexpected blanket status")
+		}
+	}
+	r.Check(sawRemote && sawUnpinned, "global:blanket-statuses", f.Pos(), "remote and unpinned blanket statuses are both assigned", "globalPinInfoCid no longer reports remote members / absent pins")
+	// error case: cluster_error under the failing destination's own id
+	adds := findCalls(f, false, "api.GlobalPinInfo).Add")
+	okErr, okReply := false, false
+	for _, ci := range adds {
+		arg := ci.Common().Args[1]
+		if al, ok := arg.(*ssa.Alloc); ok {
+			st := map[string]ssa.Value{}
+			if al.Referrers() != nil {
+				var collect func(base ssa.Value)
+				collect = func(base ssa.Value) {
+					for _, ref := range *base.Referrers() {
+						fa, ok := ref.(*ssa.FieldAddr)
+						if !ok || fa.Referrers() == nil {
+							continue
+						}
+						for _, r2 := range *fa.Referrers() {
+							if s, ok := r2.(*ssa.Store); ok && s.Addr == ssa.Value(fa) {
+								st[fieldOfAddr(fa).Name()] = s.Val
+							}
+						}
+						collect(fa)
+					}
+				}
+				collect(al)
+			}
+			// Peer = dests[i], Status = ClusterError, and the error tested is errs[i] with the same i
+			peerIdx := indexOf(st["Peer"])
+			errIdx := ssa.Value(nil)
+			for _, g := range guardsOf(ci.Block()) {
+				if x, tn, ok := nilCmp(g.Cond); ok && tn == g.Branch {
+					errIdx = indexOf(x)
+				}
+			}
+			okErr = isConst(st["Status"], cerrK) && peerIdx != nil && errIdx != nil && peerIdx == errIdx
+			r.Check(okErr, "global:error-entry", ci.Pos(), "an unreachable allocated peer is reported cluster_error under its own peer id", "the cluster_error entry is not filed under the peer whose request failed (or has another status)")
+		} else {
+			// gpin.Add(r) with r a reply, under e == nil
+			okReply = guardedBy(ci.Block(), func(g Guard) bool {
+				_, tn, ok := nilCmp(g.Cond)
+				return ok && tn != g.Branch
+			})
+			r.Check(okReply, "global:reply-entry", ci.Pos(), "a peer's own report is added only when its request succeeded", "a reply is added although its request failed")
+		}
+	}
+	if !okErr && len(adds) < 2 {
+		r.Bad("global:error-entry", f.Pos(), "globalPinInfoCid no longer reports unreachable peers as cluster_error")
+	}
+}
+
+// indexOf: v is `x[i]` (load of IndexAddr / Index); returns i.
+func indexOf(v ssa.Value) ssa.Value {
+	switch x := v.(type) {
+	case *ssa.UnOp:
+		if ia, ok := x.X.(*ssa.IndexAddr); ok {
+			return ia.Index
+		}
+	case *ssa.Index:
+		return x.Index
+	}
+	return nil
+}
